@@ -49,7 +49,23 @@ pub fn prog_faulty(rng: &mut Rng, count: u64, kind: &str, emit: Emit) {
     for _ in 0..count {
         let profile = *rng.pick(&[Profile::Dag, Profile::Banks, Profile::RegFile, Profile::Memory]);
         let mut g = proggen::program(rng, profile);
-        let (what, name) = if kind == "loop" { proggen::inject_loop(rng, &mut g) } else { proggen::inject_fault(rng, &mut g) };
+        let (what, name) = if kind == "loop" { proggen::inject_loop(rng, &mut g) }
+            else if kind == "multi" {
+                // two or three independent faults in different expressions: all of them must be reported, in every build
+                let pool: [&str; 6] = ["wire mfc:8; mfc = mfa & mfb;", "wire mfd:1; mfd = mfa && mfb;", "wire mfe:8; mfe = mfa[4..2];",
+                    "wire mff:8; mff = ghostwire + 1;", "wire mfg:8; mfg = (mfa .. 3);", "wire mfh:8; mfh = [ mfa == 1 : mfb; 1 : mfa ];"];
+                let mut idx: Vec<usize> = (0..pool.len()).collect();
+                rng.shuffle(&mut idx);
+                let n = rng.range(2, 3) as usize;
+                let at0 = rng.below(g.stmts.len() as u64 + 1) as usize;
+                g.stmts.insert(at0, proggen::Stmt::Raw(String::from("wire mfa:8, mfb:4; mfa = 1; mfb = 2;")));
+                for k in 0..n {
+                    let at = rng.below(g.stmts.len() as u64 + 1) as usize;
+                    g.stmts.insert(at, proggen::Stmt::Raw(String::from(pool[idx[k]])));
+                }
+                ("none", String::from("-"))
+            }
+            else { proggen::inject_fault(rng, &mut g) };
         let text = proggen::render_program(&g.stmts);
         let repeats: u32 = std::env::var("VERIF_REPEATS").ok().and_then(|x| x.parse().ok()).unwrap_or(4);
         let out = run_program_rep(&text, 2, &g.mem, &format!("(inject {} {}) (text {})", what, name, sexp_escape(&text)), repeats);
@@ -94,7 +110,8 @@ pub fn disasm(rng: &mut Rng, count: u64, emit: Emit) {
     }
 }
 
-/// the `pc = ...; loaded [...]` line of real runs
+/// the `pc = ...; loaded [...]` line of real runs: one cycle at a random pc, or three cycles at a fixed pc during
+/// which the program overwrites the instruction bytes (the line must follow the memory, cycle by cycle)
 pub fn trace(rng: &mut Rng, count: u64, emit: Emit) {
     use std::fmt::Write;
     for _ in 0..count {
@@ -106,25 +123,41 @@ pub fn trace(rng: &mut Rng, count: u64, emit: Emit) {
                 mem.push((pc.wrapping_add(i), b));
             }
         }
-        let text = format!("pc = 0x{:x}; Stat = STAT_HLT;\n", pc);
+        let selfmod = rng.chance(1, 3);
+        let newval: u64 = ((rng.below(13) << 4) | rng.below(8)) | (rng.next() << 8);
+        let text = if selfmod {
+            format!("pc = 0x{:x}; Stat = STAT_AOK; mem_addr = 0x{:x}; mem_writebit = 1; mem_readbit = 0; mem_input = 0x{:x};\n", pc, pc, newval)
+        } else { format!("pc = 0x{:x}; Stat = STAT_HLT;\n", pc) };
+        let cycles = if selfmod { 3 } else { 1 };
         let contents = hclrs::FileContents::new_from_data(hclrs::verif_hooks::y86_preamble(), &text, "t.hcl");
         let mem2 = mem.clone();
-        let line = std::panic::catch_unwind(std::panic::AssertUnwindSafe(|| match hclrs::parse_y86_hcl(&contents) {
-            Err(_) => String::from("rejected"),
+        let lines: Vec<String> = std::panic::catch_unwind(std::panic::AssertUnwindSafe(|| match hclrs::parse_y86_hcl(&contents) {
+            Err(_) => vec![String::from("rejected"); cycles],
             Ok(program) => {
                 let mut rp = hclrs::RunningProgram::new_y86(program);
                 rp.verif_set_memory(&mem2);
-                let mut out: Vec<u8> = Vec::new();
-                match rp.step_with_output(&mut out) {
-                    Ok(()) => String::from_utf8_lossy(&out).lines().find(|l| l.starts_with("pc = ")).unwrap_or("no-line").to_string(),
-                    Err(_) => String::from("step-error"),
+                let mut res = Vec::new();
+                for _ in 0..cycles {
+                    let mut out: Vec<u8> = Vec::new();
+                    match rp.step_with_output(&mut out) {
+                        Ok(()) => res.push(String::from_utf8_lossy(&out).lines().find(|l| l.starts_with("pc = ")).unwrap_or("no-line").to_string()),
+                        Err(_) => res.push(String::from("step-error")),
+                    }
                 }
+                res
             }
-        })).unwrap_or(String::from("PANIC"));
-        let mut req = format!("(trace {} (mem", pc);
-        for (a, b) in &mem { write!(req, " ({} {})", a, b).unwrap(); }
-        req.push_str("))");
-        emit(req, line);
+        })).unwrap_or(vec![String::from("PANIC"); cycles]);
+        // the memory each cycle starts with: the image, then the image with the stored value
+        let mut cur: std::collections::BTreeMap<u64, u8> = mem.iter().cloned().collect();
+        for (k, line) in lines.iter().enumerate() {
+            if k == 1 {
+                for j in 0..8u64 { cur.insert(pc.wrapping_add(j), ((newval >> (8 * j)) & 0xff) as u8); }
+            }
+            let mut req = format!("(trace {} (mem", pc);
+            for (a, b) in &cur { write!(req, " ({} {})", a, b).unwrap(); }
+            req.push_str("))");
+            emit(req, line.clone());
+        }
     }
 }
 
